@@ -58,9 +58,18 @@ def _expr_strategy(allow_cn):
             inner.map(lambda a: "{REC}(%s, k=@P(7))" % a),
             inner.map(lambda a: "{REC}(*[%s])" % a),
             inner.map(lambda a: "{REC}(%s, **{'k': @P(9)})" % a),
+            # several arguments, any of which may contain another rewritten call: the arguments already evaluated
+            # for the outer call must survive the evaluation of the later ones
+            st.tuples(inner, inner).map(lambda t: "{REC}(%s, k=%s)" % t),
+            st.tuples(inner, inner).map(lambda t: "{REC}(%s, %s)" % t),
+            st.tuples(inner, inner).map(lambda t: "{REC}(*[%s, %s])" % t),
+            st.tuples(inner, inner).map(lambda t: "{REC}(%s, [%s for _i in (0, 1)])" % t),
+            st.tuples(inner, inner).map(lambda t: "{REC}(%s, k=list(%s for _i in (0,)))" % t),
+            st.tuples(inner, inner).map(lambda t: "{REC}(%s, k=(lambda: %s)())" % t),
         ]
         if allow_cn:
-            forms += [st.just("{CN}(@Q(x))"), st.just("{CN}(@Q(x))"), st.just("{CN}(*[@Q(x)])")]
+            forms += [st.just("{CN}(@Q(x))"), st.just("{CN}(@Q(x))"), st.just("{CN}(*[@Q(x)])"),
+                      inner.map(lambda a: "{CN}(@Q(x), k=%s)" % a)]
         return st.one_of(*forms)
 
     def extend(ch):
@@ -194,19 +203,22 @@ def render(spec, real):
         lines.append(f"{base}def f({slf}{sig}):")
         lines.extend(body_lines)
 
-    emit_def([], "x: int, *, k: int = 0", [f"{ind}_P(50, 'leaf')", f"{ind}return ('I', x, k)"])
-    emit_def([], "x: str, *, k: int = 0", [f"{ind}if x == 'boom':", f"{ind}    raise ValueError('boom!')",
-                                          f"{ind}return ('S', x, k)"])
-    emit_def([] if method else [], "x: list, *, k: int = 0", [f"{ind}return ('L', len(x), k)"])
+    emit_def([], "x: int, *, k: object = 0", [f"{ind}_P(50, 'leaf')", f"{ind}return ('I', x, k)"])
+    emit_def([], "x: str, *, k: object = 0", [f"{ind}if x == 'boom':", f"{ind}    raise ValueError('boom!')",
+                                             f"{ind}return ('S', x, k)"])
+    emit_def([] if method else [], "x: list, *, k: object = 0", [f"{ind}return ('L', len(x), k)"])
+    if spec.get("two", True):
+        emit_def([], "x: int, y: object, /, *, k: object = 0", [f"{ind}return ('I2', x, y, k)"])
+        emit_def([], "x: str, y: object, /, *, k: object = 0", [f"{ind}return ('S2', x, y, k)"])
     # the method under test
-    sig = "x: Tok"
+    sig = "x: Tok, *, k: object = 0"
     if spec["defaults"]:
-        sig += ", d=DEF_D, lam=lambda q: ('lam', q), *, kd=DEF_KD, klam=lambda q: ('klam', q)"
+        sig = "x: Tok, d=DEF_D, lam=lambda q: ('lam', q), *, k: object = 0, kd=DEF_KD, klam=lambda q: ('klam', q)"
     body = [f"{ind}acc = []", f"{ind}v = 1"]
     for kind, e in spec["stmts"]:
         e2 = subst(number(e, nxt)).replace("{CN}", names["CN"])
         body += render_stmt(kind, e2, ind)
-    ret = "acc"
+    ret = "acc, k"
     if spec["defaults"]:
         ret += ", d, kd, lam(1), klam(2)"
     if spec["closure"]:
@@ -375,6 +387,8 @@ def run_case(spec):
                                   "_L(", " and ", " or ", "k=") if c in text})
         for c in ctx:
             res.label("ctx:" + c.strip())
+        for lab in nesting_labels(text):
+            res.label(lab)
         res.label("host:" + spec["host"])
         kinds = ["tok"] + (["gen"] if spec["gen"] else [])
         for kind in kinds:
@@ -413,6 +427,42 @@ def run_case(spec):
         for b in built:
             linecache.cache.pop(b["fname"], None)
     return res
+
+
+def nesting_labels(text):
+    """which shapes of 'a rewritten call inside a LATER argument of another rewritten call' the program contains"""
+    import ast
+
+    names = ("recurse", "call_next", "f")
+    out = set()
+
+    def is_site(n):
+        return isinstance(n, ast.Call) and isinstance(n.func, ast.Name) and n.func.id in names
+
+    def inner_sites(node, through):
+        for ch in ast.walk(node):
+            if is_site(ch):
+                return True
+        return False
+
+    try:
+        tree = ast.parse(text)
+    except SyntaxError:
+        return out
+    for n in ast.walk(tree):
+        if not is_site(n):
+            continue
+        later = list(n.args[1:]) + [k.value for k in n.keywords]
+        if n.args and isinstance(n.args[0], ast.Starred) and isinstance(n.args[0].value, (ast.List, ast.Tuple)):
+            later += list(n.args[0].value.elts[1:])
+        for a in later:
+            if inner_sites(a, False):
+                out.add("nest:site-in-later-argument")
+                if any(isinstance(x, (ast.ListComp, ast.SetComp, ast.DictComp, ast.GeneratorExp)) for x in ast.walk(a)):
+                    out.add("nest:site-in-later-argument-through-comprehension")
+                if any(isinstance(x, ast.Lambda) for x in ast.walk(a)):
+                    out.add("nest:site-in-later-argument-through-lambda")
+    return out
 
 
 def classify_build(o1, text):
